@@ -66,6 +66,65 @@ def replay_file(path):
     return check_property(prop, 'quick', 0)
 
 
+def verus_failures_on(repo_dir, prop, tier):
+    """failing / undecided obligations of `prop` (Verus units only) when the units are woven from `repo_dir`"""
+    saved = D.REPO
+    D.REPO = repo_dir
+    try:
+        failing, undec = [], []
+        for unit in units_for(prop):
+            res = D.run_unit(unit, tier)
+            info = res['info']
+            for e in res['errors']:
+                ob = res['obligations'].get(e['obligation'])
+                f = info.get(e['fn']) if e['fn'] in info else None
+                props = D.props_of(ob, info) if ob else ((f['props'] if f else []) + ['C01'] + (['C09'] if e['obligation'].endswith('/callee_wf') else []))
+                if prop in props:
+                    failing.append(e['obligation'])
+            for fn, fi in info.items():
+                if fi.get('degraded') and (prop in fi['props'] or prop == 'C01'):
+                    undec.append(fn)
+        return sorted(set(failing)), sorted(set(undec))
+    finally:
+        D.REPO = saved
+
+
+def sensitivity_selftest(prop, tier, seed):
+    """thorough tier only: every seeded property-breaking change recorded for `prop` (seeded/<id>/) is applied to a scratch
+    copy of /repo's current source (under /tmp, removed afterwards) and the Verus units are re-run on it.  This does not
+    decide the property; it measures, on every thorough run, that the obligations still notice realistic breakage."""
+    import shutil
+    import tempfile
+    out = []
+    metas = sorted(glob.glob(os.path.join(VERIF, 'seeded', '*', 'meta.json')))
+    if seed:
+        metas = metas[seed % len(metas):] + metas[:seed % len(metas)] if metas else metas
+    for mp in metas:
+        m = json.load(open(mp))
+        if m.get('property') != prop:
+            continue
+        scratch = tempfile.mkdtemp(prefix='verif_sens_%s_' % m['id'])
+        try:
+            shutil.copytree(os.path.join(D.REPO, 'src'), os.path.join(scratch, 'src'))
+            for f in ('Cargo.toml', 'Cargo.lock'):
+                shutil.copy(os.path.join(D.REPO, f), scratch)
+            rc, o, e, w = D.sh(['git', 'apply', '--unsafe-paths', '--directory=' + scratch, os.path.join(os.path.dirname(mp), 'patch.diff')], cwd='/')
+            if rc != 0:
+                rc, o, e, w = D.sh(['patch', '-p1', '-s', '-i', os.path.join(os.path.dirname(mp), 'patch.diff')], cwd=scratch)
+            if rc != 0:
+                out.append(dict(id=m['id'], status='patch-does-not-apply-to-current-tree'))
+                continue
+            try:
+                failing, undec = verus_failures_on(scratch, prop, tier)
+                status = 'detected' if failing else ('undecided' if undec else 'not-detected-by-the-verus-units')
+                out.append(dict(id=m['id'], status=status, failing_obligations=failing[:6], undecided_functions=undec[:6]))
+            except D.Undecided as ex:
+                out.append(dict(id=m['id'], status='undecided', reason=str(ex)[:200]))
+        finally:
+            shutil.rmtree(scratch, ignore_errors=True)
+    return out
+
+
 def check_property(prop, tier, seed):
     t0 = time.time()
     os.makedirs(EVID, exist_ok=True)
@@ -195,6 +254,9 @@ def check_property(prop, tier, seed):
         json.dump(doc, open(rp, 'w'), indent=1)
         out_lines.append('VIOLATION property=%s replay=%s%s' % (prop, rp, suffix))
 
+    sens = None
+    if tier == 'thorough' and not violations and not undecided:
+        sens = sensitivity_selftest(prop, tier, seed)
     discharged = sum(1 for o in all_obl if o['status'] == 'discharged')
     ev = dict(
         property_id=prop, tier=tier, seed=seed, level='proof',
@@ -210,6 +272,7 @@ def check_property(prop, tier, seed):
             solver_time_ms=solver_ms,
             failing_obligations=[dict(obligation=f['obligation'], known=(f not in violations)) for f in failing],
             undecided_functions=sorted(set(undecided)),
+            sensitivity_selftest=sens,
             failing_elsewhere_not_counted=[e['obligation'] for e in errors_other][:50],
             explanation=PROP_NOTES.get(prop, ''),
         ),
@@ -222,6 +285,8 @@ def check_property(prop, tier, seed):
         print(l)
     for l in out_lines:
         print(l)
+    if sens is not None:
+        print('%s: sensitivity self-test on %d seeded changes: %s' % (prop, len(sens), ', '.join('%s=%s' % (x['id'], x['status']) for x in sens)))
     print('%s: %d/%d obligations discharged (%d known findings, %d violations, %d undecided) in %.1fs'
           % (prop, discharged, len(all_obl), len(known_lines), len(violations), sum(1 for o in all_obl if o['status'] == 'UNDECIDED'), time.time() - t0))
     if violations:
